@@ -222,6 +222,23 @@ def ev(case, rec):
         rec.nontriv(('meta', case['layout'], method))
         if bad_meta:
             rec.fail('header / sub-grid metadata do not read back as written', site='ntv2reader:read_ntv2_file:metadata', observed=bad_meta)
+        # ---- the same file named in another legal way (pathlib.Path, bytes, relative, './' inside) reads the same and answers the same
+        import pathlib
+        s0 = subs[0]
+        qlat = float((s0['s_lat'] + s0['lat_inc'] * F(5, 4)) / 3600)
+        qlon = float(-(s0['e_long'] + s0['long_inc'] * F(3, 4)) / 3600)
+        base_q = rec.call(interpolate_ntv2, grid, qlat, qlon, method)
+        k = (len(case['layout']) + len(method)) % 4
+        pform = [pathlib.Path(path), os.fsencode(path), os.path.relpath(path), os.path.join(os.path.dirname(path), '.', os.path.basename(path))][k]
+        stp, g2 = rec.call(read_ntv2_file, pform)
+        if stp != 'ok':
+            rec.fail('read_ntv2_file raised when the file is named by a %s' % type(pform).__name__, site='ntv2reader:read_ntv2_file:path-form',
+                     observed=g2, coords={'form': type(pform).__name__})
+        else:
+            q2 = rec.call(interpolate_ntv2, g2, qlat, qlon, method)
+            if list(g2.subgrids) != list(grid.subgrids) or q2 != base_q:
+                rec.fail('the grid read through a %s path answers differently' % type(pform).__name__, site='ntv2reader:read_ntv2_file:path-form',
+                         observed=q2, expected=base_q, coords={'form': type(pform).__name__})
         # ---- queries
         for si, (s, a) in enumerate(zip(subs, arrays)):
             nrows, ncols = a.shape[:2]
